@@ -1,0 +1,45 @@
+//go:build verif
+
+package timestamp
+
+// Machine-checked contracts for package internal/timestamp (checked by /verif/govc; comment-only file). Property C15.
+
+//@ import "crypto/x509"
+//@ import "github.com/notaryproject/notation-core-go/revocation"
+//@ import "github.com/notaryproject/notation-core-go/revocation/result"
+//@ import "github.com/notaryproject/notation-core-go/signature"
+//@ import nx509 "github.com/notaryproject/notation-core-go/x509"
+//@ import tspclient "github.com/notaryproject/tspclient-go"
+
+// Contract every revocation.Validator handed in as TSARevocationValidator is assumed to meet: results are non-nil.
+//@ interface func (revocation.Validator).ValidateContext(v, ctx, validateContextOpts)
+//@   logged
+//@   ensures err == nil ==> (forall k :: 0 <= k && k < len(result) ==> result[k] != nil)
+
+// stmt C15: "has every certificate OK or NonRevokable (any Revoked or Unknown aborts)"
+//@ stmt spec func AllGood(rs []*result.CertRevocationResult) bool {
+//@     forall k :: 0 <= k && k < len(rs) ==> (rs[k].Result == result.ResultOK || rs[k].Result == result.ResultNonRevokable) }
+
+//@ func revocationResult(certResults, certChain)
+//@   requires forall k :: 0 <= k && k < len(certResults) ==> certResults[k] != nil
+//@   requires forall k :: 0 <= k && k < len(certChain) ==> certChain[k] != nil
+//@   ensures [iff] result == nil <==> (len(certResults) > 0 && len(certResults) == len(certChain) && AllGood(certResults))
+//@   loop 0
+//@     invariant 0 - 1 <= i && i < len(certResults) && len(certResults) == len(certChain) && len(certResults) > 0
+//@     invariant 0 <= numOKResults && numOKResults <= len(certResults) - 1 - i
+//@     invariant numOKResults == len(certResults) - 1 - i <==> (forall k :: i < k && k < len(certResults) ==> (certResults[k].Result == result.ResultOK || certResults[k].Result == result.ResultNonRevokable))
+//@     decreases i + 1
+//@   pure
+
+// stmt C15 (the authority-side clauses)
+//@ func Timestamp(req, opts)
+//@   props C15
+//@   requires req != nil && req.Timestamper != nil
+//@   calls NewRequest, Timestamper.Timestamp, SignedToken.Verify, Validator.ValidateContext
+//@   ensures [err=>no-token] err != nil ==> len(result) == 0 && result == nil
+//@   ensures [ok=>request] err == nil ==> called(NewRequest) && called(Timestamper.Timestamp) && lastarg(NewRequest, 0) == opts && lastarg(Timestamper.Timestamp, 2) == lastret(NewRequest, 0) && ncalls(Timestamper.Timestamp) == old(ncalls(Timestamper.Timestamp)) + 1
+//@   ensures [ok=>verified-against-caller-roots] err == nil ==> called(Timestamper.Timestamp) && called(SignedToken.Verify) && lastarg(SignedToken.Verify, 0) == TokenOf(lastret(Timestamper.Timestamp, 0)) && lastarg(SignedToken.Verify, 2).Roots == req.TSARootCAs && lastret(SignedToken.Verify, 1) == nil
+//@   ensures [ok=>tsa-chain-valid] err == nil ==> called(SignedToken.Verify) && nx509.TimestampingChainOK(lastret(SignedToken.Verify, 0))
+//@   ensures [ok=>unrevoked] (err == nil && req.TSARevocationValidator != nil) ==> called(SignedToken.Verify) && called(Validator.ValidateContext) && lastarg(Validator.ValidateContext, 2).CertChain == lastret(SignedToken.Verify, 0) && lastret(Validator.ValidateContext, 1) == nil && len(lastret(Validator.ValidateContext, 0)) == len(lastret(SignedToken.Verify, 0)) && len(lastret(Validator.ValidateContext, 0)) > 0 && AllGood(lastret(Validator.ValidateContext, 0))
+//@   ensures [ok=>token-of-that-response] err == nil ==> called(Timestamper.Timestamp) && result == lastret(Timestamper.Timestamp, 0).TimestampToken.FullBytes
+//@   ensures [no-validator=>not-consulted] req.TSARevocationValidator == nil ==> ncalls(Validator.ValidateContext) == old(ncalls(Validator.ValidateContext))
